@@ -21,7 +21,7 @@ ASSUMPTIONS = ["multistage `[ ~ ]` formulas are exercised by the correspondence 
 RULE = (
     "grammar-directed random formulas (depth<=3; names, dotted names, backtick names with operator characters, call and brace "
     "fragments, numeric scalings, 0, 1, '.', parentheses, sign runs of length 1-5, all operators) rendered with random whitespace, "
-    "x intercept on/off x 8 feature-flag subsets x available-variable lists; plus the same strings after 1-3 random character edits; "
+    "x intercept on/off x 8 feature-flag subsets x available-variable lists x parser history (one case in six: a parser built under other flags, used, then reconfigured with set_feature_flags on the parser or its resolver, or used and pickled / deep-copied); plus the same strings after 1-3 random character edits; "
     "plus identity/specification-form cases. non-trivial = at least one binary operator; distinct by canonical JSON"
 )
 
@@ -81,10 +81,12 @@ def cases(rng, tier):
         except Exception:
             pass
         r = rng.random()
+        # one case in six parses with a parser that has a history (reconfigured after use, pickled, copied)
+        hist = pc.gen_hist(rng) if rng.random() < 0.17 else None
         if r < 0.62:
-            yield dict(kind="grammar", ast=pc.to_lists(f), s=s, cfg=cfg, avail=avail)
+            yield dict(kind="grammar", ast=pc.to_lists(f), s=s, cfg=cfg, avail=avail, hist=hist)
         elif r < 0.85:
-            yield dict(kind="mutated", s=mutate(rng, s), cfg=cfg, avail=avail)
+            yield dict(kind="mutated", s=mutate(rng, s), cfg=cfg, avail=avail, hist=hist)
         elif r < 0.93:
             # documented identities on random operands (default parser)
             # operands: plain interaction chains of atoms (no numeric scalings: the identities are documented
@@ -100,7 +102,8 @@ def cases(rng, tier):
 
 
 def describe(c):
-    return c["kind"] + ("/default" if c["cfg"] == pc.CFG_DEFAULT else "/flags") + ("/dot" if c.get("avail") is not None else "")
+    return (c["kind"] + ("/default" if c["cfg"] == pc.CFG_DEFAULT else "/flags") + ("/dot" if c.get("avail") is not None else "")
+            + ("/hist:" + c["hist"]["via"] if c.get("hist") else ""))
 
 
 def nontrivial(c):
@@ -108,8 +111,8 @@ def nontrivial(c):
 
 
 def impl(c):
-    t = pc.impl_terms(c["s"], c["cfg"], c.get("avail"))
-    f = pc.impl_formula(c["s"], c["cfg"], c.get("avail"))
+    t = pc.impl_terms(c["s"], c["cfg"], c.get("avail"), c.get("hist"))
+    f = pc.impl_formula(c["s"], c["cfg"], c.get("avail"), c.get("hist"))
     out = dict(terms=t, formula=f)
     if c["kind"] == "identity":
         out["ident"] = _identities(c)
